@@ -35,6 +35,8 @@ fn die(msg: &str) -> ! {
     process::exit(2);
 }
 
+const MAX_LINE: usize = 16 << 20;
+
 fn main() {
     let args: Vec<String> = std::env::args().collect();
     if args.len() < 3 || args.len() > 4 {
@@ -80,7 +82,18 @@ fn main() {
             started: Instant::now(),
             limit,
         });
-        let result = ops::run_case(line);
+        let mut result = ops::run_case(line);
+        // No case of the unchanged library prints more than about 1 MB. A changed one may (a decoder
+        // that believes a 256 MB body arrived): keep the head of the line, so the run stays bounded.
+        if result.len() > MAX_LINE {
+            let n = result.len();
+            let mut cut = 2000;
+            while !result.is_char_boundary(cut) {
+                cut -= 1;
+            }
+            result.truncate(cut);
+            result = format!("OVERSIZE len={};{}", n, result);
+        }
         // Same lock order as the watchdog (current, then out): exactly one of
         // the two writes the line for this case.
         let mut cur = shared.current.lock().unwrap();
